@@ -216,10 +216,10 @@ def _(v):
             v.prove("native_rejects", out.raised(ValueError), detail="%r -> %r" % (s, out.value if out.returned else out.exc))
 
 
-def _parts(prefixes, suffixes):
+def _parts(prefixes, suffixes, tier="quick"):
     tag = "p%d_s%d" % (len(prefixes), len(suffixes))
 
-    @harness("C01", "_formula_to_parts." + tag, functions=[PA + ":_formula_to_parts"], kind="shape-bounded", samples=60, max_paths=400)
+    @harness("C01", "_formula_to_parts." + tag, functions=[PA + ":_formula_to_parts"], kind="shape-bounded", samples=60, max_paths=400, tier=tier)
     def _(v):
         import z3
         from chempy.util.parsing import _formula_to_parts
@@ -268,7 +268,7 @@ def _parts(prefixes, suffixes):
     return _
 
 
-_parts((".", "alpha-"), ("(s)", "(aq)"))
+_parts((".", "alpha-"), ("(s)", "(aq)"), tier="thorough")
 _parts((), ())
 _parts((".",), ("(g)",))
 
@@ -300,7 +300,7 @@ def _ftc(nparts):
         """hydrate accumulation and charge placement, modular over the contracts of _formula_to_parts, _get_leading_integer,
         _parse_stoich and _get_charge (each proved above)"""
         from chempy.util import parsing
-        keys = [1, 8, 11]
+        keys = [1, 8, 11] if nparts < 3 else [1, 8]
         comps = []
         for j in range(nparts):
             pres = {k: v.bool("has_%d_%d" % (j, k)) for k in keys}
